@@ -273,7 +273,7 @@ class LimitLoops(Contract):
         return [
             (f'{q}.must_raise_when_distinct_inclusions_plus_exclusions_exceed_limit', ('C11',), must_raise),
             (f'{q}.work_bound_items_pulled_at_most_remaining_budget_plus_one', ('C11',), work),
-            (f'{q}.NODIR_regex_appended_iff_positive_nonempty_and_NODIR', ('C02', 'C12', 'C07'), nodir),
+            (f'{q}.NODIR_regex_appended_iff_positive_nonempty_and_NODIR', ('C02', 'C12', 'C07', 'C10'), nodir),
             (f'{q}.NEGATEALL_default_added_whenever_negatives_without_positives', ('C07', 'C14'), default_iff),
         ]
 
